@@ -75,3 +75,24 @@ func (p *FloatingIPPlugin) VerifPluginDrainUnreleased() (pods []*corev1.Pod, ret
 
 // VerifPluginUpdateConfigMap runs one configuration reload from the config map (what Run does every minute).
 func (p *FloatingIPPlugin) VerifPluginUpdateConfigMap() (bool, error) { return p.updateConfigMap() }
+
+// VerifResyncEntry is one entry of the resync checklist (the snapshot fetchChecklist takes before any pod lock).
+type VerifResyncEntry = resyncObj
+
+// VerifIP returns the address of the entry.
+func (o resyncObj) VerifIP() string { return o.fip.IP.String() }
+
+// VerifPluginFetchChecklist runs the first phase of a resync pass (fetchChecklist) and returns the snapshot.
+func (p *FloatingIPPlugin) VerifPluginFetchChecklist() ([]VerifResyncEntry, error) {
+	meta := &resyncMeta{}
+	if err := p.fetchChecklist(meta); err != nil {
+		return nil, err
+	}
+	return meta.allocatedIPs, nil
+}
+
+// VerifPluginResyncOne runs one iteration of the second phase (resyncAllocatedIPs) for an entry of an earlier snapshot,
+// so that the harness can interleave other operations between the snapshot and the iteration.
+func (p *FloatingIPPlugin) VerifPluginResyncOne(e VerifResyncEntry) {
+	p.resyncAllocatedIPs(&resyncMeta{allocatedIPs: []resyncObj{e}})
+}
